@@ -2268,6 +2268,11 @@ func (d *Document) parseSDTProperties(decoder *xml.Decoder, props *SDTProperties
 					return err
 				}
 				props.RunPr = holder.Properties
+			case "tag":
+				props.Tag = &SDTTag{Val: getAttributeValue(t.Attr, "val")}
+				if err := d.skipElement(decoder, t.Name.Local); err != nil {
+					return err
+				}
 			case "id":
 				props.ID = &SDTID{Val: getAttributeValue(t.Attr, "val")}
 				if err := d.skipElement(decoder, t.Name.Local); err != nil {
